@@ -12,17 +12,24 @@ Mini-AST (nested tuples; it mirrors the PSyIR PSyclone builds for the text):
                                                          Return node)
     ("T",)              10 CONTINUE                     (labelled, CodeBlock)
     ("L", body)         DO i<d> = 1, n ; body ; END DO  (d = loop depth 1..2)
+    ("W", (K, body..))  DO WHILE (k(j) < n) ; k(j) = k(j) + 1 ; body ; END DO
+    ("B", (K, Q, body..))  DO ; k(j) = k(j) + 1 ; IF (k(j) > n) EXIT ; body ; END DO
+                        (PSyIR WhileLoops; j = static number of the loop, k is a
+                        zero-initialised argument; only outside other loops, no
+                        loops or GOTOs inside; ("K",) is the counter increment,
+                        ("Q", (("X",),)) the terminating guard)
     ("I", then, else)   IF (c(q,i1,i2) > 0) THEN then [ELSE else] END IF
 
 Every IF gets its own static condition number q (pre-order); the condition of
 IF number q inside loops i1 (and i2) reads the input element c(q,i1,i2) (1 for
-a missing loop level): every dynamic evaluation of every branch condition in
+a missing loop level; c(q,k(j),1) inside WHILE / bare loop j): every dynamic evaluation of every branch condition in
 every iteration vector has its own independent truth value.  A backward GOTO
 first clears its own condition element so that every program terminates.
 """
 QMAX = 4          # conditions per program (first extent of c)
 NMAX = 3          # largest trip count (other extents of c)
 AMAX = 8          # size of a
+KMAX = 3          # WHILE / bare DO loops per program (size of k)
 LABEL = 10
 
 TRANSFERS = {"X": "EXIT", "Y": "CYCLE", "R": "RETURN", "G": f"GOTO {LABEL}"}
@@ -35,8 +42,8 @@ def key(prog):
     """Short canonical string of a statement sequence."""
     out = []
     for st in prog:
-        if st[0] == "L":
-            out.append("L(" + key(st[1]) + ")")
+        if st[0] in ("L", "W", "B", "Q"):
+            out.append(st[0] + "(" + key(st[1]) + ")")
         elif st[0] == "I":
             if st[2]:
                 out.append("I(" + key(st[1]) + "|" + key(st[2]) + ")")
@@ -52,8 +59,10 @@ def size(prog):
     the reset statement of a backward GOTO) counts as one statement."""
     tot = 0
     for st in prog:
-        if st[0] == "L":
+        if st[0] in ("L", "W", "B"):
             tot += 1 + size(st[1])
+        elif st[0] in ("K", "Q"):
+            pass                # fixed parts of a WHILE / bare DO loop
         elif st[0] == "I":
             if _is_guard(st):
                 tot += 1
@@ -72,7 +81,7 @@ def _is_guard(st):
 def walk(prog):
     for st in prog:
         yield st
-        if st[0] == "L":
+        if st[0] in ("L", "W", "B", "Q"):
             yield from walk(st[1])
         elif st[0] == "I":
             yield from walk(st[1])
@@ -103,6 +112,11 @@ def _stmts(budget, depth, in_loop, ifdepth, goto):
         if depth < 2:
             for body in _seqs(budget - 1, 2, depth + 1, True, ifdepth, goto):
                 yield ("L", body)
+        if depth == 0:
+            # WHILE and bare DO loops: not nested in loops, no loops/GOTO inside
+            for body in _seqs(budget - 1, 2, 2, True, ifdepth, None):
+                yield ("W", (("K",),) + body)
+                yield ("B", (("K",), ("Q", (("X",),))) + body)
         if ifdepth < 1:
             for then in _seqs(budget - 1, 2, depth, in_loop, ifdepth + 1, goto):
                 if _only_transfer(then):
@@ -142,7 +156,7 @@ def _with_label(prog):
         for pos, st in enumerate(seq):
             if st[0] == "I" and _only_transfer(st[1]) and st[1][0][0] == "G":
                 return [(pos,)]
-            if st[0] == "L":
+            if st[0] in ("L", "W", "B"):
                 sub = chain(st[1])
                 if sub is not None:
                     return [(pos, 1)] + sub
@@ -199,26 +213,34 @@ def _mark(st, steps, backward):
     return st[:which] + (tuple(seq),) + st[which + 1:]
 
 
-def programs(maxsize, goto_maxsize):
+def programs(maxsize, goto_maxsize, while_maxsize):
     """Deterministic, size-ordered list of (key, prog).  GOTO programs consist
     of a GOTO-free skeleton of size <= goto_maxsize - 1 ... the label counts as
-    one statement."""
+    one statement.  Programs with a WHILE / bare DO loop are kept up to size
+    while_maxsize."""
     seen = {}
     for prog in _seqs(maxsize, 3, 0, False, 0, None):
-        if _nconds(prog) <= QMAX and _nassign(prog) <= AMAX:
+        if _nconds(prog) <= QMAX and _nassign(prog) <= AMAX and \
+                _nwhile(prog) <= KMAX:
             seen.setdefault(key(prog), prog)
     for prog in _seqs(goto_maxsize - 1, 3, 0, False, 0, "G"):
         if "G" not in kinds(prog):
             continue
         for full in _with_label(prog):
-            if _nconds(full) <= QMAX and _nassign(full) <= AMAX:
+            if _nconds(full) <= QMAX and _nassign(full) <= AMAX and \
+                    _nwhile(full) <= KMAX:
                 seen.setdefault(key(full), full)
     out = sorted(seen.items(), key=lambda kv: (size(kv[1]), len(kv[0]), kv[0]))
-    return out
+    return [(k, p) for k, p in out
+            if not _nwhile(p) or size(p) <= while_maxsize]
 
 
 def _nconds(prog):
     return sum(1 for st in walk(prog) if st[0] == "I")
+
+
+def _nwhile(prog):
+    return sum(1 for st in walk(prog) if st[0] in ("W", "B"))
 
 
 def _nassign(prog):
@@ -231,43 +253,55 @@ def _nassign(prog):
 def number(prog):
     """Annotated copy: every statement becomes a dict with the static numbers
     (assignment position p, condition q, loop depth d, enclosing loop depths)."""
-    counters = {"p": 0, "q": 0}
+    counters = {"p": 0, "q": 0, "w": 0}
 
-    def rec(seq, depth, cond):
+    def rec(seq, depth, cond, wnum):
         out = []
         for st in seq:
             if st[0] == "A":
                 counters["p"] += 1
                 out.append({"k": "A", "p": counters["p"]})
             elif st[0] == "Z":
-                out.append({"k": "Z", "q": cond, "d": depth})
+                out.append({"k": "Z", "q": cond, "d": depth, "w": wnum})
             elif st[0] == "L":
                 out.append({"k": "L", "d": depth + 1,
-                            "body": rec(st[1], depth + 1, cond)})
+                            "body": rec(st[1], depth + 1, cond, wnum)})
+            elif st[0] in ("W", "B"):
+                counters["w"] += 1
+                mine = counters["w"]
+                out.append({"k": st[0], "w": mine,
+                            "body": rec(st[1], depth, cond, mine)})
+            elif st[0] in ("K", "Q"):
+                out.append({"k": st[0], "w": wnum})
+                if st[0] == "Q":
+                    out[-1]["then"] = rec(st[1], depth, cond, wnum)
             elif st[0] == "I":
                 counters["q"] += 1
                 qnum = counters["q"]
-                out.append({"k": "I", "q": qnum, "d": depth,
-                            "then": rec(st[1], depth, qnum),
-                            "else": rec(st[2], depth, qnum)})
+                out.append({"k": "I", "q": qnum, "d": depth, "w": wnum,
+                            "then": rec(st[1], depth, qnum, wnum),
+                            "else": rec(st[2], depth, qnum, wnum)})
             else:
                 out.append({"k": st[0]})
         return out
 
-    return rec(prog, 0, 0)
+    return rec(prog, 0, 0, 0)
 
 
-def _cref(qnum, depth):
+def _cref(qnum, depth, wnum=0):
+    if wnum:
+        return f"c({qnum}, k({wnum}), 1)"
     idx = [str(qnum)] + [f"i{d}" if d <= depth else "1" for d in (1, 2)]
     return "c(" + ", ".join(idx) + ")"
 
 
 def fortran(prog, name):
-    """Source of `subroutine <name>(n, c, a)`."""
-    lines = [f"subroutine {name}(n, c, a)",
+    """Source of `subroutine <name>(n, c, a, k)`."""
+    lines = [f"subroutine {name}(n, c, a, k)",
              "  integer, intent(in) :: n",
              f"  integer, intent(inout) :: c({QMAX},{NMAX},{NMAX})",
              f"  integer, intent(inout) :: a({AMAX})",
+             f"  integer, intent(inout) :: k({KMAX})",
              "  integer :: i1",
              "  integer :: i2"]
 
@@ -278,7 +312,7 @@ def fortran(prog, name):
             if kind == "A":
                 lines.append(f"{pad}a({st['p']}) = a({st['p']}) + 1")
             elif kind == "Z":
-                lines.append(f"{pad}{_cref(st['q'], st['d'])} = 0")
+                lines.append(f"{pad}{_cref(st['q'], st['d'], st['w'])} = 0")
             elif kind == "T":
                 lines.append(f"{LABEL} continue")
             elif kind in TRANSFERS:
@@ -287,8 +321,17 @@ def fortran(prog, name):
                 lines.append(f"{pad}do i{st['d']} = 1, n")
                 emit(st["body"], ind + 1)
                 lines.append(f"{pad}end do")
+            elif kind in ("W", "B"):
+                lines.append(f"{pad}do while (k({st['w']}) < n)" if kind == "W"
+                             else f"{pad}do")
+                emit(st["body"], ind + 1)
+                lines.append(f"{pad}end do")
+            elif kind == "K":
+                lines.append(f"{pad}k({st['w']}) = k({st['w']}) + 1")
+            elif kind == "Q":
+                lines.append(f"{pad}if (k({st['w']}) > n) exit")
             else:
-                cond = f"{_cref(st['q'], st['d'])} > 0"
+                cond = f"{_cref(st['q'], st['d'], st['w'])} > 0"
                 if not st["else"] and len(st["then"]) == 1 and \
                         st["then"][0]["k"] in TRANSFERS:
                     word = TRANSFERS[st["then"][0]["k"]].lower()
@@ -337,8 +380,11 @@ def execute(nprog, nval, bits, reads=None, horizon=5000, watch=None,
     seen = set()
     steps = [0]
     ivars = {1: 1, 2: 1}
+    kvals = [0] * (KMAX + 1)
 
-    def cidx(qnum, depth):
+    def cidx(qnum, depth, wnum=0):
+        if wnum:
+            return (qnum, kvals[wnum], 1)
         return (qnum, ivars[1] if depth >= 1 else 1, ivars[2] if depth >= 2 else 1)
 
     def run_seq(seq, start=0):
@@ -377,7 +423,7 @@ def execute(nprog, nval, bits, reads=None, horizon=5000, watch=None,
         if kind == "A":
             avals[st["p"] - 1] += 1
         elif kind == "Z":
-            cvals[cidx(st["q"], st["d"])] = 0
+            cvals[cidx(st["q"], st["d"], st["w"])] = 0
         elif kind == "T":
             pass
         elif kind in TRANSFERS:
@@ -397,8 +443,25 @@ def execute(nprog, nval, bits, reads=None, horizon=5000, watch=None,
                 val += 1
             else:
                 ivars[dep] = val
+        elif kind in ("W", "B"):
+            while kind == "B" or kvals[st["w"]] < nval:
+                steps[0] += 1
+                if steps[0] > horizon:
+                    raise _Budget()
+                try:
+                    run_seq(st["body"])
+                except _Jump as jmp:
+                    if jmp.kind == "X":
+                        break
+                    if jmp.kind != "Y":
+                        raise
+        elif kind == "K":
+            kvals[st["w"]] += 1
+        elif kind == "Q":
+            if kvals[st["w"]] > nval:
+                run_seq(st["then"])
         else:
-            idx = cidx(st["q"], st["d"])
+            idx = cidx(st["q"], st["d"], st["w"])
             if idx in cvals:
                 val = cvals[idx]
             else:
@@ -456,7 +519,7 @@ def schedules(prog):
     def rec(seq, path):
         out.append((path, seq))
         for pos, st in enumerate(seq):
-            if st[0] == "L":
+            if st[0] in ("L", "W", "B", "Q"):
                 rec(st[1], path + ((pos, 1),))
             elif st[0] == "I":
                 rec(st[1], path + ((pos, 1),))
@@ -493,8 +556,8 @@ def bypasses(prog, rng, nval, bits):
     seq = nprog
     for pos, slot in path:
         st = seq[pos]
-        seq = st["body"] if st["k"] == "L" else (st["then"] if slot == 1
-                                                 else st["else"])
+        seq = st["body"] if st["k"] in ("L", "W", "B") else (
+            st["then"] if slot == 1 else st["else"])
     events = []
     execute(nprog, nval, frozenset(tuple(b) for b in bits),
             watch=(seq, start, stop), events=events)
